@@ -10,7 +10,8 @@ from common import prove, driver
 
 P = "Matid.Props.C09."
 THEOREMS = [P + t for t in ("components_times_stabiliser", "stabiliser_is_closed_walk_group", "components_power_of_two", "dimension_in_range",
-                            "log2_table", "wrap_inside_cell")]
+                            "log2_table", "wrap_inside_cell", "bond_matrix_wellformed", "components_are_connected_components",
+                            "count_is_number_of_components", "bonded_2x_iff")]
 TRUSTED = ["Lean 4 kernel + Mathlib (orbit-stabiliser, Lagrange)", "axioms: propext, Classical.choice, Quot.sound at most (audited per run)",
            "hand-written model MatidModel/Dim.lean (on MatidModel/Geom.lean), tied by the correspondence; tools/gen_dim_rule.py (entry wrap, cutoff formula, repeat factor, log base read from the AST)",
            "DBSCAN contract D1 (min_samples=1, precomputed: labels = connected components of dist <= eps) monitored on every sampled call",
